@@ -1087,6 +1087,7 @@ pub fn project(name: &str, trace: &[Value]) -> Vec<Value> {
         "migration" => crate::proj_c15::migration(trace),
         "dgram" => crate::proj_c16::dgram(trace),
         "zerortt" => crate::proj_c17::zerortt(trace),
+        "tokens" => crate::proj_c14::tokens(trace),
         "master" => trace.to_vec(),
         o => panic!("unknown projection {o}"),
     }
